@@ -127,3 +127,29 @@ Example wf_examples :
   decl_wf O0 (dint_def (Some (DScalar (VInt 8 300))) true false) = false /\
   decl_wf O0 (dint_def (Some DIll) true false) = false.
 Proof. repeat split; vm_compute; reflexivity. Qed.
+
+(* cross-location decoys (hypothesis of C03_only_declared_location is satisfiable, non-trivially): a formData
+   parameter on a request whose query string, a header line and a path segment carry the same name *)
+Definition fq (form query : list (string * string)) : request :=
+  {| r_query := List.map (fun p => (b (fst p), b (snd p))) query;
+     r_header := [(b "N", b "8")]; r_path := [(b "n", b "6")];
+     r_form := List.map (fun p => (b (fst p), b (snd p))) form |}.
+Definition dform (def : option dval) (req : bool) : decl :=
+  {| d_name := b "n"; d_in := LForm; d_kind := KInteger; d_format := b "int8"; d_item_kind := None; d_item_format := [];
+     d_cf := []; d_required := req; d_default := def; d_allow_empty := false |}.
+Example decoy_same_source :
+  own_source (dform None true) (fq [("n", "5")] [("n", "9")])%string = own_source (dform None true) (fq [("n", "5")] [])%string.
+Proof. vm_compute. reflexivity. Qed.
+Example decoy_does_not_override : bind_param O0 (dform None true) (fq [("n", "5")] [("n", "9")])%string None = bound_int 8 5.
+Proof. vm_compute. reflexivity. Qed.
+Example decoy_invalid_ignored : bind_param O0 (dform None true) (fq [("n", "5")] [("n", "zzz")])%string None = bound_int 8 5.
+Proof. vm_compute. reflexivity. Qed.
+Example decoy_does_not_satisfy_required : bind_param O0 (dform None true) (fq [] [("n", "9")])%string None = R422 (b "n") code_required.
+Proof. vm_compute. reflexivity. Qed.
+Example decoy_does_not_suppress_default :
+  bind_param O0 (dform (Some (DScalar (VInt 8 7))) false) (fq [] [("n", "9")])%string None = bound_int 8 7.
+Proof. vm_compute. reflexivity. Qed.
+Example query_ignores_form_body :
+  bind_param O0 (dint "n" "int8" LQuery) (fq [("n", "5")] [])%string None = bound_int 8 0 /\
+  bind_param O0 (dint "n" "int8" LQuery) (fq [("n", "5")] [("n", "9")])%string None = bound_int 8 9.
+Proof. split; vm_compute; reflexivity. Qed.
